@@ -44,6 +44,9 @@ func c16List(tier string) []c16Case {
 	for i := 0; i < tierN(tier, 8, 80); i++ {
 		out = append(out, c16Case{Family: "redial", Index: i, GMP: []int{1, 4, 16}[i%3]})
 	}
+	for i := 0; i < tierN(tier, 6, 48); i++ {
+		out = append(out, c16Case{Family: "refused-request", Index: i, GMP: []int{1, 4, 16}[i%3]})
+	}
 	for i := 0; i < tierN(tier, 12, 120); i++ {
 		out = append(out, c16Case{Family: "refail", Index: i, Rewrite: []string{"reattach-then-old-fails", "write-fault-while-serve-loop-busy", "read-fault-while-serve-loop-busy", "reattach-while-old-stays-open", "write-only-fault-reported-while-serve-loop-busy"}[i%5], GMP: []int{1, 4, 16}[i%3]})
 	}
@@ -95,8 +98,71 @@ func c16Run(tier string, seed int64, idx int) *core.Result {
 		c16Redial(tier, seed, idx, c, res)
 	case "refail":
 		c16Refail(tier, seed, idx, c, res)
+	case "refused-request":
+		c16Refused(tier, seed, idx, c, res)
 	}
 	return res
+}
+
+// c16Refused: requests the server refuses on its own (undecodable request metadata) are answered with an error reply; through client - proxy - Demux - Serve
+// that reply must come back to the requesting peer exactly as it does on a direct connection.
+func c16Refused(tier string, seed int64, idx int, c c16Case, res *core.Result) {
+	setGMP(c.GMP)
+	h := bed.NewHooks()
+	h.Install()
+	b := bed.New(bed.Opts{Topology: "proxy", Clients: 1, Cap: []int{0, 4}[c.Index%2], Serialise: c.Index%4 < 2})
+	ctx, cancel := context.WithCancel(context.Background())
+	defer cancel()
+	l := wire.NewLink(4, c.Index%2 == 0)
+	var mu sync.Mutex
+	got := map[uint64]*wire.Rpc{}
+	wire.NewPeer(ctx, l.A, func(_ *wire.Peer, in *wire.Rpc) {
+		mu.Lock()
+		got[in.GetId()] = proto.Clone(in).(*wire.Rpc)
+		mu.Unlock()
+	})
+	b.Proxy.AddClient("x0", l.B)
+	body, _ := proto.Marshal(&svc.BV{Value: []byte("q")})
+	mk := func(id uint64, method string, kv ...*goatorepo.KeyValue) *wire.Rpc {
+		return &wire.Rpc{Id: id, Header: &goatorepo.RequestHeader{Method: method, Source: "x0", Destination: "srv", Headers: kv}, Body: &goatorepo.Body{Data: body}}
+	}
+	reqs := []*wire.Rpc{
+		mk(1, svc.MUnary, &goatorepo.KeyValue{Key: "x-bin", Value: "!!!not base64!!!"}),
+		mk(2, svc.MUnary2, &goatorepo.KeyValue{Key: "y-bin", Value: "%%%"}),
+		mk(3, svc.MUnary, &goatorepo.KeyValue{Key: svc.TagKey, Value: "fine"}),
+	}
+	for _, e := range reqs {
+		done := make(chan error, 1)
+		go func() { done <- l.A.Write(ctx, e) }()
+		settle(tier, func() bool { return len(done) > 0 })
+	}
+	st, snap := settle(tier, func() bool { mu.Lock(); defer mu.Unlock(); return len(got) == len(reqs) })
+	mu.Lock()
+	if st == "stuck" {
+		var missing []uint64
+		for _, e := range reqs {
+			if got[e.GetId()] == nil {
+				missing = append(missing, e.GetId())
+			}
+		}
+		res.ViolateD("reply-lost-through-proxy", map[string]any{"goat_goroutines": goatParked(snap)}, "requests %v (1, 2 = undecodable request metadata, 3 = valid) sent through the proxy were never answered: the server's reply did not come back (final state)", missing)
+	} else if st == "ok" {
+		for id, g := range got {
+			if g.GetHeader().GetDestination() != "x0" || g.GetHeader().GetSource() != "srv" {
+				res.Violate("reply-routing-fields-wrong", "reply %d arrived with source %q destination %q", id, g.GetHeader().GetSource(), g.GetHeader().GetDestination())
+			}
+			if id < 3 && g.GetStatus().GetCode() == 0 {
+				res.Violate("refused-request-answered-ok", "request %d must be refused, the reply carries no error status", id)
+			}
+		}
+		res.Stat("refused_request_cases", 1)
+	} else {
+		res.Verdict, res.Note = core.Inconclusive, "watchdog"
+	}
+	mu.Unlock()
+	cancel()
+	l.Kill()
+	finish(tier, b, h, res)
 }
 
 // c16Refail: delivery to "the peer named by the destination" around connection failures:
@@ -832,7 +898,7 @@ func init() {
 		ThoroughRounds: 4,
 		Run:            c16Run,
 		RequiredStats: func(string) []string {
-			return []string{"envelopes_delivered_and_compared", "rpc_workload_cases_through_proxy", "burst_streams", "hook:proxy.forward", "redial_cases", "refail_cases"}
+			return []string{"envelopes_delivered_and_compared", "rpc_workload_cases_through_proxy", "burst_streams", "hook:proxy.forward", "redial_cases", "refail_cases", "refused_request_cases"}
 		},
 		Assumptions: []string{"bounded families keep at most 12 envelopes outstanding per destination (below the proxy's 16-slot buffer), as the property prescribes"},
 	})
